@@ -138,6 +138,10 @@ def extract(unit_list, repo=None, extra_args=(), roots=None, tag=''):
     key = tree_key(repo)
     cdir = os.path.join(CACHE, key)
     os.makedirs(cdir, exist_ok=True)
+    try:
+        os.utime(cdir, None)          # mark the entry as in use: pruning goes by this time stamp
+    except OSError:
+        pass
     _prune_cache(key)
     res, todo = {}, []
     for u in unit_list:
